@@ -1206,7 +1206,33 @@ def op_x_c16(req):
                 break
         if _portable_dump(p) != before:
             fails.append(["to_native-mutates-portable", "co%d: portable object changed by to_native()" % i])
+        # hand-made native objects whose header integers no compiler derives from the names (accepted before 3.11)
+        if sys.version_info < (3, 11):
+            for field, delta in (("co_nlocals", 2), ("co_stacksize", 40), ("co_nlocals", -1)):
+                try:
+                    odd = co.replace(**{field: max(0, getattr(co, field) + delta)})
+                    if getattr(odd, field) == getattr(co, field):
+                        continue
+                except (ValueError, TypeError, SystemError):
+                    continue
+                try:
+                    n2 = x.codetype.codeType2Portable(odd).to_native()
+                except Exception as e:
+                    fails.append(["odd-header|%s|raised|%s" % (field, type(e).__name__), "co%d %s with %s=%d: %s" % (
+                        i, co.co_name, field, getattr(odd, field), e)])
+                    continue
+                a2, b2 = _native_dump(odd), _native_dump(n2)
+                for k in sorted(set(a2) | set(b2)):
+                    if a2.get(k) != b2.get(k):
+                        fails.append(["odd-header|%s|field|%s" % (field, k), "co%d %s with %s=%d: %s differs after round trip: %s -> %s" % (
+                            i, co.co_name, field, getattr(odd, field), k, json.dumps(a2.get(k))[:120], json.dumps(b2.get(k))[:120])])
+                        break
         # replace()
+        try:
+            if p.replace() is p or p.replace(co_name=p.co_name) is p:
+                fails.append(["replace-returns-self|no-change", "co%d: replace() without a change returned the object itself, not a copy" % i])
+        except Exception as e:
+            fails.append(["replace-raised|no-change|%s" % type(e).__name__, "co%d: replace() raised %s" % (i, e)])
         for field, val in req.get("replace", []):
             if not hasattr(p, field):
                 continue
